@@ -56,6 +56,11 @@ SCHEMA_POSITIONS = [
     ["properties", "tn", "dependencies", "k"],
     ["properties", "ta", "patternProperties", "^x"],
     ["properties", "ta", "propertyNames"],
+    # two JSON names that map to one Python attribute: the declaration that loses is still a schema position
+    ["properties", "foo-bar"],
+    ["properties", "foo-bar", "items"],
+    ["properties", "foo_bar"],
+    ["properties", "o", "properties", "a b", "anyOf", 0],
 ]
 
 
@@ -64,9 +69,11 @@ def base_doc():
         "title": "Root",
         "properties": {
             "p": {"type": "integer"},
+            "foo-bar": {"type": "array", "items": {"type": "integer"}},
+            "foo_bar": {"type": "string"},
             "q": {"type": "array", "items": {"type": "integer"}, "contains": {"minimum": 1}},
             "r": {"items": [{"type": "integer"}, {"type": "string"}], "additionalItems": {"type": "null"}},
-            "o": {"type": "object", "title": "O", "properties": {"deep": {"type": "array", "items": {"anyOf": [{"type": "integer"}, {"type": "string"}]}}}, "propertyNames": {"maxLength": 9}, "dependencies": {"deep": {"minProperties": 1}}},
+            "o": {"type": "object", "title": "O", "properties": {"a b": {"anyOf": [{"type": "integer"}, {"type": "null"}]}, "a_b": {"type": "integer"}, "deep": {"type": "array", "items": {"anyOf": [{"type": "integer"}, {"type": "string"}]}}}, "propertyNames": {"maxLength": 9}, "dependencies": {"deep": {"minProperties": 1}}},
             "tl": {"type": ["integer", "string"], "minimum": 1},
             "s": {"items": {"type": "integer"}, "additionalItems": {"type": "null"}},
             "t": {"additionalItems": {"type": "null"}, "contains": {"type": "integer"}},
@@ -120,7 +127,9 @@ def refused(pos, kw, entry):
     if _tracing():
         from crosshair.tracers import NoTracing
 
-        with NoTracing():
+        from vf.prelude import real_hash
+
+        with NoTracing(), real_hash():
             return _refused(pos, kw, entry)
     return _refused(pos, kw, entry)
 
@@ -232,7 +241,9 @@ def run_main(doc):
     if _tracing():
         from crosshair.tracers import NoTracing
 
-        with NoTracing():
+        from vf.prelude import real_hash
+
+        with NoTracing(), real_hash():
             return go()
     return go()
 
